@@ -125,6 +125,12 @@ Proof.
   - (* head *) intros sd'. destruct (side_dec sd' sd) as [->|Hs].
     + cbn [s' mk mem set_qhead qhead]. rewrite upd_same. auto.
     + rewrite QH by auto. apply (i_headnz _ _ I).
+  - (* popped *) intros f' sd' Hf'. cbn [g' gset_own gset_role gset_gl grole] in Hf'.
+    destruct (Nat.eq_dec f' f) as [->|Hne].
+    + exists t. unfold inflight. cbn [s' mk stk mem]. rewrite upd_same. exact C4.
+    + rewrite upd_other in Hf' by auto. destruct (i_popped _ _ I f' sd' Hf') as [u Hu].
+      assert (u = t) by (apply (i_one _ _ I); [eapply inflight_popper; eauto|rewrite <- Hk; exact Logic.I]).
+      subst u. unfold inflight in Hu. rewrite <- Hk in Hu. destruct Hu.
 Qed.
 
 Lemma shape_popped_any m m' f sd k :
@@ -195,6 +201,10 @@ Proof.
     + symmetry. apply (i_one _ _ I); auto. rewrite <- Hk. exact Logic.I.
     + apply (i_one _ _ I); auto. rewrite <- Hk. exact Logic.I.
     + apply (i_one _ _ I); auto.
+  - intros f' sd' Hf'. cbn [g' gset_own grole] in Hf'. destruct (i_popped _ _ I f' sd' Hf') as [u Hu].
+    assert (u = t) by (apply (i_one _ _ I); [eapply inflight_popper; eauto|rewrite <- Hk; exact Logic.I]).
+    subst u. unfold inflight in Hu. rewrite <- Hk in Hu. rewrite P4 in Hu. apply fname_inj in Hu. subst f'.
+    exists t. unfold inflight. cbn [s' mk stk]. rewrite upd_same. reflexivity.
 Qed.
 
 (* schedule(f) at the end of a successful pop: the wake-up is delivered *)
@@ -299,6 +309,11 @@ Proof.
     + apply (i_one _ _ I); auto.
     + apply (i_one _ _ I); auto.
   - intros sd'. cbn [s' mk mem]. rewrite QH. apply (i_headnz _ _ I).
+  - intros f' sd' Hf'. cbn [g' gset_role grole] in Hf'.
+    destruct (Nat.eq_dec f' f) as [->|Hne]; [rewrite upd_same in Hf'; discriminate|].
+    rewrite upd_other in Hf' by auto. destruct (i_popped _ _ I f' sd' Hf') as [u Hu].
+    assert (u = t) by (apply (i_one _ _ I); [eapply inflight_popper; eauto|exact POP]).
+    subst u. unfold inflight in Hu. rewrite <- Hk in Hu. destruct K0; subst k0; congruence.
 Qed.
 
 (* what another fiber's pop_ok depends on *)
@@ -444,6 +459,11 @@ Proof.
   - intros u v. cbn [s' mk stk].
     destruct (Nat.eq_dec u t) as [->|Hu], (Nat.eq_dec v t) as [->|Hv]; rewrite ?upd_same, ?upd_other by auto; auto;
       intros P1 P2; try (cbn in P1; tauto); try (cbn in P2; tauto). apply (i_one _ _ I); auto.
+  - intros f sd' Hf. assert (f <> t).
+    { intros ->. cbn [g' gset_own gset_role gset_gl grole] in Hf. rewrite upd_same in Hf. discriminate. }
+    destruct (OTH f H) as [_ O2]. rewrite O2 in Hf. destruct (i_popped _ _ I f sd' Hf) as [u Hu].
+    assert (u <> t) by (intros ->; apply inflight_popper in Hu; rewrite <- Hk in Hu; exact Hu).
+    exists u. unfold inflight in *. destruct (OTH u H0) as [-> _]. exact Hu.
 Qed.
 
 Lemma chain_link s g s' sd t p0 n r : forall l a,
@@ -520,4 +540,7 @@ Proof.
   - intros u v. cbn [s' mk stk].
     destruct (Nat.eq_dec u t) as [->|Hu], (Nat.eq_dec v t) as [->|Hv]; rewrite ?upd_same, ?upd_other by auto; auto;
       intros P1 P2; try (cbn in P1; tauto); try (cbn in P2; tauto). apply (i_one _ _ I); auto.
+  - intros f sd' Hf. destruct (i_popped _ _ I f sd' Hf) as [u Hu].
+    assert (u <> t) by (intros ->; apply inflight_popper in Hu; rewrite <- Hk in Hu; exact Hu).
+    exists u. unfold inflight in *. rewrite (OTH u H). exact Hu.
 Qed.
